@@ -41,7 +41,7 @@ type c08Call struct {
 	Multi []int
 }
 
-var c08KindNames = []string{"Marshal", "Unmarshal", "Valid", "Get", "Pretouch", "MarshalString", "UnmarshalString", "EncodeInto", "MarshalIndent", "PretouchMany"}
+var c08KindNames = []string{"Marshal", "Unmarshal", "Valid", "Get", "Pretouch", "MarshalString", "UnmarshalString", "EncodeInto", "MarshalIndent", "UnmarshalBurst(malformed)"}
 
 type c08Res struct {
 	Out   string
@@ -124,6 +124,16 @@ func c08Exec(types []reflect.Type, cl *c08Call) (res c08Res) {
 	case 4:
 		err := sonic.Pretouch(types[cl.T], cl.Opts...)
 		return c08Res{Err: errStr(err)}
+	case 9:
+		var last error
+		for k := 0; k < cl.Multi[0]; k++ {
+			p := reflect.New(types[cl.T])
+			last = stdAPI.UnmarshalFromString(cl.Text, p.Interface())
+		}
+		if last == nil {
+			return c08Res{Out: "burst: last decode succeeded"}
+		}
+		return c08Res{Err: "burst: " + fmt.Sprintf("%T", last)}
 	default:
 		return c08Res{}
 	}
@@ -186,7 +196,13 @@ func runC08(c *Ctx) Result {
 	vars.SimResetCache(capE)
 	simrt.PoolTape = t
 	simrt.OrderTape = t
-	defer func() { simrt.PoolTape, simrt.OrderTape = nil, nil }()
+	defer func() { simrt.PoolTape, simrt.OrderTape, simrt.PoolMissPct = nil, nil, 15 }()
+	// bursts of failing decodes only make sense when pooled objects really are reused:
+	// those runs keep the pools LIFO without forced misses
+	burstRun := t.Draw(simrt.Knobs, 4) == 0
+	if burstRun {
+		simrt.PoolMissPct = 0
+	}
 	panicPct := 0
 	if t.Draw(simrt.Knobs, 4) == 0 {
 		panicPct = 4
@@ -210,6 +226,19 @@ func runC08(c *Ctx) Result {
 			cl := c08Call{Kind: g.d(9), T: g.d(nTypes)}
 			if g.d(2) == 0 {
 				cl.T = hotT // several clients share one type: first-use compilation races
+			}
+			if burstRun && g.d(4) == 0 {
+				// a burst of FAILING decodes (document cut inside its nesting): whatever an error
+				// path leaves behind in pooled decoder state accumulates, and the other clients'
+				// valid calls must not notice
+				v := z.Value(types[cl.T], 0)
+				if b, err := json.Marshal(v.Interface()); err == nil && len(b) > 8 {
+					cl.Kind = 9
+					cl.Text = string(b[:len(b)/2+g.d(len(b)/2)])
+					cl.Multi = []int{150 + g.d(1500)}
+					calls[i] = append(calls[i], cl)
+					continue
+				}
 			}
 			switch cl.Kind {
 			case 0, 5, 7, 8:
